@@ -388,7 +388,7 @@ struct RunOut {
 }
 
 /// Ticks with a yield after each that foreign threads get to return.
-const STUCK_TICKS: u64 = if cfg!(miri) { 400_000 } else { 5_000_000 };
+const STUCK_TICKS: u64 = if cfg!(miri) { 400_000 } else { 500_000 };
 
 fn run(p: &Prog) -> RunOut {
     let w = World::new(p.m, false, p.slow);
@@ -531,6 +531,10 @@ fn run(p: &Prog) -> RunOut {
         }
         thread::yield_now();
         service += 1;
+        if !cfg!(miri) && service > 100_000 {
+            // slow rounds: the watchdog is >= 40 s, not a burst of spinning
+            thread::sleep(std::time::Duration::from_micros(100));
+        }
         if service > STUCK_TICKS {
             let msg = format!(
                 "{} of {} foreign threads have not finished their scripts after {STUCK_TICKS} further ticks (each drains the sync queue) with a yield after each: a JoinHandle/Waker call does not return",
